@@ -747,6 +747,7 @@ class Trace:
                 self.labels.append("ex")      # its commit happened; what remained of __exit__ was in-memory only
         self.items.append(("kill", None))
         self.block_stack = []
+        self.batch_aborted = False
         self.current = None
         self.pending_blk = None
 
@@ -849,12 +850,20 @@ class Trace:
                     done = self.block_stack.pop() if self.block_stack else []
                     if self.block_stack:
                         self.block_stack[-1].extend(done)       # still inside an enclosing batch
+                    elif getattr(self, "batch_aborted", False):
+                        # a level inside this batch was left by an exception that was swallowed inside the batch:
+                        # Database.__exit__ zeroes the counter then, which also forgets the commits the enclosing
+                        # levels had deferred (IgnoreCommits: "all commits ignored").  Mirrored by the model (exitExc),
+                        # not demanded here; the rows go out with the next commit
+                        self.batch_aborted = False
+                        self.aborted_batches = getattr(self, "aborted_batches", 0) + 1
                     else:
                         self.confirmed.update(done)             # the outermost batch has been left normally
                     self.labels.append("ex")
                 elif what == "xx":
                     if self.block_stack:
                         self.block_stack.pop()                  # left by an exception: nothing of this level is demanded
+                    self.batch_aborted = bool(self.block_stack)  # … and, if levels remain open, nothing of them either
                     self.labels.append("xx")
             elif t == "N":
                 self.cur_op = int(w[1])
@@ -1756,8 +1765,8 @@ def scripted(rng):
               {"op": "enter"}, att(pk, mp), {"op": "exitexc", "ignore": True}, md(pk2, tp),
               {"op": "enter"}, tok(pk2, prev, ch, None), {"op": "exitexc", "ignore": False}, {"op": "commit"},
               att(pk2, mp)]
-    nested = [{"op": "enter"}, tok(pk, prev, cha, b"a"), {"op": "enter"}, {"op": "exit"},        # inner batch: nothing
-              md(pk, tp), {"op": "exit"},
+    nested = [{"op": "enter"}, tok(pk, prev, cha, b"a"), {"op": "enter"}, {"op": "exit"}, {"op": "exit"},   # outer batch
+              md(pk, tp),                                        # stores, inner batch does nothing, both are left
               {"op": "enter"}, {"op": "enter"}, att(pk, mp), {"op": "exit"}, tok(pk2, prev, ch2, bigc), {"op": "exit"},
               {"op": "enter"}, md(pk2, tp), {"op": "enter"}, {"op": "enter"}, {"op": "exit"},
               {"op": "exitexc", "ignore": True}, {"op": "exit"}, att(pk2, mp)]
@@ -1904,6 +1913,8 @@ class Runner:
         for lab in tr.labels:
             ctx.count("label:" + lab)
         ctx.count("block_depth:%d" % getattr(tr, "max_depth", 0))
+        if getattr(tr, "aborted_batches", 0):
+            ctx.count("batch_with_swallowed_inner_exception", tr.aborted_batches)
         created = bool(r["dump"].get("tables"))
         if mode != "none" and tr.opened and len(tr.order) >= 3:
             ctx.sample({"input": exp.to_replay() if sum(len(p_) for p_ in exp.ops_phases) <= 8 else
